@@ -53,6 +53,14 @@ func (r *Resp) ErrCode() string {
 
 // ParseResp parses raw response bytes for a request with the given method.
 func ParseResp(raw []byte, method string) *Resp {
+	// skip interim 1xx responses (Expect: 100-continue)
+	for bytes.HasPrefix(raw, []byte("HTTP/1.1 100 ")) {
+		i := bytes.Index(raw, []byte("\r\n\r\n"))
+		if i < 0 || i+4 >= len(raw) {
+			break
+		}
+		raw = raw[i+4:]
+	}
 	r := &Resp{RawLen: len(raw)}
 	if len(raw) == 0 {
 		r.None = true
